@@ -149,7 +149,7 @@ def judge(op, impl, model, spec):
 
 def sched_ops(tier):
     ops = []
-    seqs = ["u5", "b0102", "u5,u6"] + (["u24,u5", "u5,u6,u7"] if tier == "thorough" else [])
+    seqs = ["u5", "b0102", "u5,u6"] + (["u24,u5", "b0102,u5"] if tier == "thorough" else [])
     for s in seqs:
         vs = F.parse_vals(s)
         total = sum(4 + len(F.payload(v)) for v in vs)
